@@ -629,7 +629,11 @@ func callSites(fn *ssa.Function) []CallSite {
 		for _, in := range b.Instrs {
 			if c, ok := in.(ssa.CallInstruction); ok {
 				cc := c.Common()
-				out = append(out, CallSite{Fn: fn, Instr: c, Callee: cc.StaticCallee(), Name: calleeName(cc)})
+				callee := cc.StaticCallee()
+				if callee == nil {
+					callee = devirt(cc)
+				}
+				out = append(out, CallSite{Fn: fn, Instr: c, Callee: callee, Name: calleeName(cc)})
 			}
 		}
 	}
